@@ -81,11 +81,11 @@ func runC18(e *Env) {
 			ok := false
 			if fire != nil {
 				_, ok = core.GuardedBy(fire, func(cond ssa.Value) core.CondMatch {
-					c, is := core.CondCall(cond, "time.Time.After")
-					if !is || core.Resolve(core.Arg(c, 0)) != ssa.Value(f.Params[1]) {
+					_, later, earlier, is := core.CondTimeAfter(cond)
+					if !is || core.Resolve(later) != ssa.Value(f.Params[1]) {
 						return core.CondMatch{}
 					}
-					add, isAdd := core.Resolve(core.Arg(c, 1)).(*ssa.Call)
+					add, isAdd := core.Resolve(earlier).(*ssa.Call)
 					if !isAdd || core.CalleeName(add) != "time.Time.Add" || !isFieldLoadNamed(core.Arg(add, 1), "duration") {
 						return core.CondMatch{}
 					}
@@ -242,8 +242,7 @@ func c18KeepAlive(e *Env) {
 		// the one-line helper written out: numFails.Add(1)
 		incs = core.Calls(f, func(n string, ci ssa.CallInstruction) bool {
 			_, fl, ok := core.FieldOf(core.Arg(ci, 0))
-			k, isK := core.ConstInt(core.Arg(ci, 1))
-			return ok && fl == "numFails" && strings.HasSuffix(n, ".Add") && isK && k == 1
+			return ok && fl == "numFails" && atomicIncrement(n, ci)
 		})
 	}
 	var fire, ping ssa.Instruction
@@ -323,14 +322,13 @@ func c18KeepAlive(e *Env) {
 	var gen *ssa.Call
 	for _, c := range core.Calls(f, func(n string, ci ssa.CallInstruction) bool {
 		_, fl, ok := core.FieldOf(core.Arg(ci, 0))
-		return ok && fl == "pongToken" && strings.HasSuffix(n, ".Add")
+		return ok && fl == "pongToken" && (strings.HasSuffix(n, ".Add") || strings.HasSuffix(n, ".Inc"))
 	}) {
 		gen = c.(*ssa.Call)
 	}
 	okGen := gen != nil && ping != nil && core.Dominates(gen, ping)
 	if okGen {
-		k, isK := core.ConstInt(core.Arg(gen, 1))
-		okGen = isK && k == 1
+		okGen = atomicIncrement(core.CalleeName(gen), gen)
 	}
 	e.R.Check(okGen, rule, "net/monitor/inactivity.KeepAlive.OnInactive:fresh-generation", e.fpos(f), "every ping takes a fresh generation number (pongToken.Add(1)) before it is sent", "pings do not get a fresh generation number")
 	okReset := false
@@ -549,4 +547,16 @@ func calledDirectly(g *ssa.Function) bool {
 		}
 	}
 	return found
+}
+
+// atomicIncrement: x.Add(1) or its synonym x.Inc() of an atomic counter.
+func atomicIncrement(name string, c ssa.CallInstruction) bool {
+	if strings.HasSuffix(name, ".Inc") {
+		return true
+	}
+	if strings.HasSuffix(name, ".Add") {
+		k, isK := core.ConstInt(core.Arg(c, 1))
+		return isK && k == 1
+	}
+	return false
 }
